@@ -136,7 +136,17 @@ def run(tier: str) -> int:
         h = [list(x) for x in st["hist"]]
         if len(h) == 5 and useful(h) and any(op[0] == "Taint" for op in h):
             hists.append([tuple(op) for op in h])
-    log(f"[C09] G histories: {n1} of length {b['replay']['MaxOps']} over all operations, {n2 - n1} of length 5 for the version guard, {len(hists) - n2} of length 5 for path identity (same file name in two directories)")
+    n3 = len(hists)
+    # altered entries: path and checksum kept, a field of the wrong JSON type (Write, Scan, Damage(illtyped), Scan)
+    at = dict(Paths='{"p1", "p2"}', Contents='{"c1"}', MaxOps=4, Ops='{"Write", "Scan", "Damage"}', FaultKinds='{"illtyped"}')
+    g4 = tlc.run("Workspace", tlc.cfg(at, spec="Spec", invariants=["TypeOK"]), wd, dump=True, cfgname="Workspace_types.cfg", coverage=False)
+    for st in read_dump(g4.dump):
+        h = [list(x) for x in st["hist"]]
+        if len(h) == 4 and useful(h) and any(op[0] == "Damage" for op in h):
+            for flavour in range(5):
+                hists.append([tuple(op) + ((flavour,) if op[0] == "Damage" else ()) for op in h])
+    log(f"[C09] G altered entries: {len(hists) - n3} histories with an ill-typed field in an entry whose path and checksum still match")
+    log(f"[C09] G histories: {n1} of length {b['replay']['MaxOps']} over all operations, {n2 - n1} of length 5 for the version guard, {n3 - n2} of length 5 for path identity (same file name in two directories)")
     rng = random.Random(seed() * 13 + 9)
     rnd = [random_history(rng, rng.randint(*b["rnd_len"])) for _ in range(b["rnd"])]
     allh = hists + rnd
